@@ -58,16 +58,63 @@ def optF (cls : Nat) (k : Nat) : Option Bytes → Bytes
   | some b => tlv cls false k b
   | none => []
 
+/-- a text IP address: the CHOICE under context tag k, the IA5String alternative under tag j -/
+def ipEnc (k j : Nat) : Option Bytes → Bytes
+  | some a => tlv 2 true k (tlv 2 false j a)
+  | none => []
+
+def nfiEnc (e : RecEnv) (r : Record) : Bytes :=
+  tlv 2 true 3 (tlv 2 false 0 (intBytes e.functionality) ++ (optF 2 1 r.nf ++ (ipEnc 2 2 e.v4 ++ (optF 2 3 e.plmn ++
+    (ipEnc 4 3 e.v6 ++ (ipEnc 5 1 e.fqdn ++ []))))))
+
+def pduEnc : Option Pdu → Bytes
+  | some d => tlv 2 true 13 (intF 0 d.chargingId ++ (intF 6 d.sessionId ++
+      (tlv 2 true 7 (intF 0 d.sst ++ (tlv 2 false 1 d.sd ++ [])) ++ (tlv 2 false 13 d.dnn ++ []))))
+  | none => []
+
+def regEnc (b : Bool) : Bytes := if b then tlv 2 true 19 (tlv 2 false 0 (intBytes 0) ++ []) else []
+
+theorem nfi_eq (e : RecEnv) (r : Record) :
+    marshal Gen.T_NetworkFunctionInformation ⟨false, some 3, false, false, false, 0⟩ (nfiVal e r) = .ok (nfiEnc e r) := by
+  unfold nfiVal nfiEnc
+  cases r.nf <;> cases e.v4 <;> cases e.plmn <;> cases e.v6 <;> cases e.fqdn <;>
+  simp [Gen.T_NetworkFunctionInformation, Gen.T_NetworkFunctionality, Gen.T_NetworkFunctionName, Gen.T_IPAddress, Gen.T_PLMNId,
+    Gen.T_NodeAddress, Vals.ofList, nils, marshal, marshalAlt, marshalFields, nilable, isNilVal, Fields.length, finish, seqTag,
+    optF, ipEnc, optStr, optBytes, ipTextVal, fqdnVal, stringTagOf]
+
+theorem pdu_eq (d : Pdu) :
+    marshal (.ptr Gen.T_PDUSessionChargingInformation) ⟨true, some 13, false, false, false, 0⟩ (pduVal (some d)) = .ok (pduEnc (some d)) := by
+  simp [Gen.T_PDUSessionChargingInformation, Gen.T_ChargingID, Gen.T_PDUSessionId, Gen.T_SingleNSSAI, Gen.T_SliceServiceType,
+    Gen.T_SliceDifferentiator, Gen.T_DataNetworkNameIdentifier, pduVal, pduEnc, Vals.ofList, nils, marshal, marshalFields, nilable,
+    isNilVal, Fields.length, finish, seqTag, intF, stringTagOf]
+
+theorem reg_eq :
+    marshal (.ptr Gen.T_RegistrationChargingInformation) ⟨true, some 19, false, false, false, 0⟩ (regVal true) = .ok (regEnc true) := by
+  simp [Gen.T_RegistrationChargingInformation, Gen.T_RegistrationMessageType, regVal, regEnc, Vals.ofList, nils, marshal,
+    marshalFields, nilable, isNilVal, Fields.length, finish, seqTag]
+
+theorem isNil_nil : isNilVal Val.nil = true := rfl
+theorem isNil_int (i : Int) : isNilVal (Val.int i) = false := rfl
+theorem isNil_bytes (b : Bytes) : isNilVal (Val.bytes b) = false := rfl
+theorem isNil_str (b : Bytes) : isNilVal (Val.str b) = false := rfl
+theorem isNil_list (v : Vals) : isNilVal (Val.list v) = false := rfl
+theorem isNil_struct (v : Vals) : isNilVal (Val.struct v) = false := rfl
+theorem pduVal_nil : isNilVal (pduVal none) = true := rfl
+theorem pduVal_some (d : Pdu) : isNilVal (pduVal (some d)) = false := rfl
+theorem regVal_false : isNilVal (regVal false) = true := rfl
+theorem regVal_true : isNilVal (regVal true) = false := rfl
+
 /-- the members of cdrType.ChargingRecord that OpenCDR / UpdateCDR / CloseCDR fill, in tag order -/
 def recordContent (e : RecEnv) (r : Record) : Bytes :=
   intF 0 200 ++ (tlv 2 false 1 e.nfId ++
   (tlv 2 true 2 (tlv 2 false 0 (intBytes 1) ++ (tlv 2 false 1 r.subData ++ [])) ++
-  (tlv 2 true 3 (tlv 2 false 0 (intBytes e.functionality) ++ (optF 2 1 r.nf ++ [])) ++
+  (nfiEnc e r ++
   (usageListEnc r.usage ++
   (tlv 2 false 6 e.openTime ++ (intF 7 0 ++
   ((match r.rsn with | some n => intF 8 n | none => []) ++
   (intF 9 r.cause ++ (intF 11 r.lsn ++
-  (optF 2 16 r.sid ++ (intF 27 r.cid ++ [])))))))))))
+  (pduEnc e.pdu ++
+  (optF 2 16 r.sid ++ (optF 2 17 e.svcSpec ++ (regEnc e.registration ++ (intF 27 r.cid ++ []))))))))))))))
 
 /-- the record as written to the file: `[200] IMPLICIT SEQUENCE` (the selected alternative of the CHOICE CHFRecord) -/
 def recordEnc (e : RecEnv) (r : Record) : Bytes := tlv 2 true 200 (recordContent e r)
@@ -75,23 +122,26 @@ def recordEnc (e : RecEnv) (r : Record) : Bytes := tlv 2 true 200 (recordContent
 /-- marshalling the record value on the regenerated schema type succeeds and yields the closed form -/
 theorem recordBytes_eq (e : RecEnv) (r : Record) : recordBytes e r = .ok (recordEnc e r) := by
   have hu := usages_eq ⟨true, some 5, false, false, false, 0⟩ rfl r.usage
+  have hnfi := nfi_eq e r
   unfold recordBytes recordVal chargingRecordVal recordEnc recordContent
   cases hus : r.usage with
   | nil =>
-    cases hn : r.nf <;> cases hr : r.rsn <;> cases hsid : r.sid <;>
+    cases hr : r.rsn <;> cases hsid : r.sid <;> cases hsv : e.svcSpec <;> cases hpd : e.pdu <;> cases hrg : e.registration <;>
     simp [Gen.T_CHFRecord, Gen.T_ChargingRecord, topParams, Vals.ofList, nils, marshal, marshalAlt, marshalFields, nilable,
-      isNilVal, Fields.length, finish, seqTag, intF, optF, optStr, optBytes, usageListVal, usageListEnc, stringTagOf,
+      isNil_nil, isNil_int, isNil_bytes, isNil_str, isNil_list, isNil_struct, Fields.length, finish, intF, optF, optBytes, usageListVal, usageListEnc,
       Gen.T_RecordType, Gen.T_NetworkFunctionName, Gen.T_SubscriptionID, Gen.T_SubscriptionIDType,
-      Gen.T_NetworkFunctionInformation, Gen.T_NetworkFunctionality, Gen.T_TimeStamp, Gen.T_CallDuration,
-      Gen.T_CauseForRecClosing, Gen.T_LocalSequenceNumber, Gen.T_ChargingSessionIdentifier, Gen.T_ChargingID]
+      Gen.T_TimeStamp, Gen.T_CallDuration, Gen.T_CauseForRecClosing, Gen.T_LocalSequenceNumber,
+      Gen.T_ChargingSessionIdentifier, Gen.T_ChargingID, hnfi, pdu_eq, reg_eq, pduVal_nil, pduVal_some, regVal_false, regVal_true,
+      pduEnc, regEnc]
   | cons u us =>
     rw [hus] at hu
-    cases hn : r.nf <;> cases hr : r.rsn <;> cases hsid : r.sid <;>
+    cases hr : r.rsn <;> cases hsid : r.sid <;> cases hsv : e.svcSpec <;> cases hpd : e.pdu <;> cases hrg : e.registration <;>
     simp [Gen.T_CHFRecord, Gen.T_ChargingRecord, topParams, Vals.ofList, nils, marshal, marshalAlt, marshalFields, nilable,
-      isNilVal, Fields.length, finish, seqTag, intF, optF, optStr, optBytes, usageListVal, usageListEnc, stringTagOf,
+      isNil_nil, isNil_int, isNil_bytes, isNil_str, isNil_list, isNil_struct, Fields.length, finish, intF, optF, optBytes, usageListVal, usageListEnc,
       Gen.T_RecordType, Gen.T_NetworkFunctionName, Gen.T_SubscriptionID, Gen.T_SubscriptionIDType,
-      Gen.T_NetworkFunctionInformation, Gen.T_NetworkFunctionality, Gen.T_TimeStamp, Gen.T_CallDuration,
-      Gen.T_CauseForRecClosing, Gen.T_LocalSequenceNumber, Gen.T_ChargingSessionIdentifier, Gen.T_ChargingID, hu]
+      Gen.T_TimeStamp, Gen.T_CallDuration, Gen.T_CauseForRecClosing, Gen.T_LocalSequenceNumber,
+      Gen.T_ChargingSessionIdentifier, Gen.T_ChargingID, hnfi, pdu_eq, reg_eq, pduVal_nil, pduVal_some, regVal_false, regVal_true,
+      pduEnc, regEnc, hu]
 
 end Chf.RecordBer
 
@@ -177,7 +227,7 @@ theorem usageListEnc_length (us : List RecUsage) :
 
 theorem recordContent_length (e : RecEnv) (r : Record) :
     (recordContent e r).length = fixedLen e r + (usageListEnc r.usage).length := by
-  unfold fixedLen recordContent
+  unfold fixedLen recordContent nfiEnc
   simp only [List.length_append, usageListEnc, List.length_nil]
   omega
 
